@@ -715,6 +715,10 @@ class IkeSa(object):
         cookie = response.get_notifies(PayloadNOTIFY.Type.COOKIE)
         if cookie:
             self.log_warning("COOKIE notification received. Trying including the COOKIE")
+            # the new cookie replaces the one of a previous round (RFC 7296 2.6) instead of being stacked before it
+            self.request.payloads = [x for x in self.request.payloads
+                                     if not (x.type == Payload.Type.NOTIFY
+                                             and x.notification_type == PayloadNOTIFY.Type.COOKIE)]
             self.request.payloads.insert(0, cookie[0])
             self.ike_sa_init_req_data = self.request.to_bytes()
             self.my_msg_id = 0
